@@ -2,6 +2,7 @@ package main
 
 import (
 	"bytes"
+	"encoding/json"
 	"fmt"
 	"path/filepath"
 	"sort"
@@ -77,7 +78,34 @@ func tail(s string, n int) string {
 	return s
 }
 
+// c05Repeat: run-to-run variation that does not come through pkg/dict (a raw Go map range, an address, the
+// clock, the environment) is not owned by the scheduler; it shows as two runs of one and the same scenario and
+// schedule that differ. Replay = run the scenario k times; any differing pair is the violation.
+type c05Repeat struct {
+	Repeat int `json:"repeat"`
+}
+
+func judgeC05Repeat(c *Ctx, sc *Scenario, k int) *Violation {
+	one := sc.Clone()
+	one.Extra = nil
+	r0 := c.sim(c.B.FcVerif, one)
+	for i := 1; i < k; i++ {
+		r := c.sim(c.B.FcVerif, one)
+		if v := c05Compare(r0, r); v != nil {
+			return &Violation{Class: "uncontrolled", Signature: "uncontrolled-nondeterminism:" + v.Class,
+				Detail: fmt.Sprintf("run %d of the very same scenario under the very same enumeration schedule differs from run 0 (variation that does not come through pkg/dict): %s", i, v.Detail)}
+		}
+	}
+	return nil
+}
+
 func judgeC05(c *Ctx, sc *Scenario) *Violation {
+	if len(sc.Extra) > 0 {
+		var rp c05Repeat
+		if json.Unmarshal(sc.Extra, &rp) == nil && rp.Repeat > 1 {
+			return judgeC05Repeat(c, sc, rp.Repeat)
+		}
+	}
 	id := sc.Clone()
 	id.Enum = EnumSched{Mode: "identity"}
 	r0 := c.sim(c.B.FcVerif, id)
@@ -226,6 +254,22 @@ func checkC05(tier string) {
 		}
 		_ = i
 	}
+	// every program once more under the identity schedule: two runs of the same scenario must agree
+	c.phase("identity runs, second time (uncontrolled nondeterminism)")
+	ids2 := parallel(c, len(plan), func(i int) *Violation {
+		sc := plan[i].p.scenario("C05", c.Seed, i)
+		sc.TickBudget = c05Budget
+		return c05Compare(ids[i], c.sim(c.B.FcVerif, sc))
+	}, nil)
+	var uncontrolled []*Scenario
+	for i, v := range ids2 {
+		if v != nil {
+			c.count("identity_rerun_mismatches", 1)
+			sc := plan[i].p.scenario("C05", c.Seed, i)
+			sc.TickBudget = c05Budget
+			uncontrolled = append(uncontrolled, sc)
+		}
+	}
 	var items []c05Item
 	for i, pl := range plan {
 		if len(ids[i].Enums()) == 0 {
@@ -300,6 +344,36 @@ func checkC05(tier string) {
 	sort.SliceStable(bad, func(i, j int) bool { return scenarioSize(bad[i].sc) < scenarioSize(bad[j].sc) })
 	explainedProg := map[string]bool{}
 	fullShrinks := 0
+	// uncontrolled nondeterminism first: it would make every other mismatch unreproducible
+	sort.SliceStable(uncontrolled, func(i, j int) bool { return scenarioSize(uncontrolled[i]) < scenarioSize(uncontrolled[j]) })
+	for _, o := range bad {
+		if len(uncontrolled) < 40 {
+			id := o.sc.Clone()
+			id.Enum = EnumSched{Mode: "identity"}
+			uncontrolled = append(uncontrolled, id)
+		}
+	}
+	for k, sc := range uncontrolled {
+		if k >= 12 || violations > 0 {
+			break
+		}
+		rp, _ := json.Marshal(c05Repeat{Repeat: 24})
+		sc.Extra = rp
+		v := judgeC05(c, sc)
+		if v == nil {
+			continue
+		}
+		small := shrinkProgram(c, sc, v.Class, judgeC05)
+		if nv := judgeC05(c, small); nv != nil && nv.Class == v.Class {
+			sc, v = small, nv
+		}
+		if !seenSig[v.Signature] {
+			seenSig[v.Signature] = true
+			if c.report(sc, v, judgeC05, nil) {
+				violations++
+			}
+		}
+	}
 	for _, o := range bad {
 		explainedProg[o.sc.Note] = true
 		c.count("mismatch_program_kind:"+strings.SplitN(o.sc.Note, ":", 2)[0], 1)
